@@ -6,6 +6,6 @@ AllAligns == {"bottom", "center", "top"}
 AllPerturbs == {"shift+1", "shift-1", "swap", "rate2", "ratefine", "cls", "cbw", "labels+1", "labels-1", "t0mismatch"}
 Q_RootLens == {0, 1, 3}
 Q_NChans == {1, 2, 3, 4}
-F_RootLens == {0, 1, 2, 3, 5}
-F_NChans == {1, 2, 3, 4, 5, 6}
+F_RootLens == {0, 1, 2, 4}
+F_NChans == {1, 2, 3, 4, 5}
 =============================================================================
